@@ -71,13 +71,20 @@ class Env:
         from repid import Connection, InMemoryBucketBroker, InMemoryMessageBroker
 
         if self.kind == "mem":
-            if self._mem_broker is None or not share_memory:
-                self._mem_broker = InMemoryMessageBroker()
-                self._mem_args = InMemoryBucketBroker()
-                self._mem_results = InMemoryBucketBroker(use_result_bucket=True)
-            # the in-memory broker lives in one process: every "connection" shares the same broker objects
-            mb, ab, rb = self._mem_broker, (self._mem_args if buckets else None), (self._mem_results if buckets else None)
-            self.clients[name] = self._mem_broker
+            if not share_memory:
+                # an unrelated in-memory installation (a second Repid app in the same process); not probed
+                mb = InMemoryMessageBroker()
+                ab = InMemoryBucketBroker() if buckets else None
+                rb = InMemoryBucketBroker(use_result_bucket=True) if buckets else None
+                self.clients[name] = mb
+            else:
+                if self._mem_broker is None:
+                    self._mem_broker = InMemoryMessageBroker()
+                    self._mem_args = InMemoryBucketBroker()
+                    self._mem_results = InMemoryBucketBroker(use_result_bucket=True)
+                # the in-memory broker lives in one process: every "connection" shares the same broker objects
+                mb, ab, rb = self._mem_broker, (self._mem_args if buckets else None), (self._mem_results if buckets else None)
+                self.clients[name] = self._mem_broker
         elif self.kind == "redis":
             from harness import fredis
             from repid.connections.redis import RedisBucketBroker, RedisMessageBroker
@@ -98,10 +105,9 @@ class Env:
 
             self._amqp_lat[name] = _lat_fn(lat)
             mb = RabbitMessageBroker(f"amqp://fake/{name}")
-            if self._mem_args is None:
-                self._mem_args = IMB()
-                self._mem_results = IMB(use_result_bucket=True)
-            ab, rb = (self._mem_args if buckets else None), (self._mem_results if buckets else None)
+            # repid has no AMQP bucket broker; every connection gets its own in-memory ones (a broker object
+            # belongs to exactly one Connection, which installs its signal emitter on it)
+            ab, rb = (IMB() if buckets else None), (IMB(use_result_bucket=True) if buckets else None)
             self.clients[name] = mb
         if spy is not None:
             mb = BoundaryProxy(mb, spy, MSG_OPS, name)
